@@ -42,8 +42,10 @@ def gen_scenario(seed, length=30, sessions=("A", "B"), mboxes=("inbox", "b"),
          "fetch": 6, "fetchbody": 3, "expunge": 6, "uidexpunge": 3, "copy": 5, "move": 4,
          "noop": 8, "check": 2, "idle": 3, "done": 3, "close": 2, "unselect": 1,
          "search": 3, "status": 2, "restart": 1 if with_restart else 0}
+    w.update({"create": 0, "delete": 0, "rename": 0, "subscribe": 0, "uidprobe": 0})
     if weights:
         w.update(weights)
+    extra = ["c", "b/x", "d e"]
     names = list(w)
     ws = [w[n] for n in names]
     for _ in range(length):
@@ -52,7 +54,13 @@ def gen_scenario(seed, length=30, sessions=("A", "B"), mboxes=("inbox", "b"),
         mb = rng.choice(mboxes)
         uid = rng.random() < 0.4
         if op in ("select", "examine", "status"):
-            steps.append((op, s, mb))
+            steps.append((op, s, rng.choice(list(mboxes) + extra) if w["create"] and rng.random() < 0.3 else mb))
+        elif op in ("create", "delete", "subscribe"):
+            steps.append(("ns" + op, s, rng.choice(list(mboxes) + extra), rng.random() < 0.7))
+        elif op == "rename":
+            steps.append(("nsrename", s, rng.choice(list(mboxes) + extra), rng.choice(extra + ["r1", "r2/y"])))
+        elif op == "uidprobe":
+            steps.append(("fetch", s, [[1, STAR]], "peek", True))
         elif op == "append":
             fl = rng.sample(FLAGS, rng.choice([0, 0, 1, 2]))
             steps.append((op, s, mb, fl, rng.choice([0, 0, 946684800 + rng.randint(0, 10**8)])))
@@ -111,7 +119,15 @@ async def run_steps(d: MailDriver, steps, sessions=("A", "B")):
         if s in idle and op != "done":
             await d.done(s)
             idle.discard(s)
-        if op == "select":
+        if op == "nscreate":
+            await d.create(s, st[2])
+        elif op == "nsdelete":
+            await d.delete(s, st[2])
+        elif op == "nssubscribe":
+            await d.subscribe(s, st[2], on=st[3])
+        elif op == "nsrename":
+            await d.rename(s, st[2], st[3])
+        elif op == "select":
             await d.select(s, st[2])
         elif op == "examine":
             await d.select(s, st[2], examine=True)
